@@ -4,13 +4,13 @@ package main
 
 import (
 	"fmt"
-	"os"
-	"runtime"
-	"time"
 	"go/token"
 	"go/types"
+	"os"
+	"runtime"
 	"sort"
 	"strings"
+	"time"
 
 	"golang.org/x/tools/go/ssa"
 )
@@ -379,7 +379,7 @@ func (l *lemmas) discharge(s *Site) (string, bool) {
 			}
 		}
 	case "slice", "index":
-		if strings.HasSuffix(fnKey(s.Fn), "structFieldsCBOR).Delete") && l.noDupKeys() {
+		if t := w.encMapType("CBOR"); t != nil && strings.HasSuffix(fnKey(s.Fn), t.Obj().Name()+").Delete") && l.noDupKeys() {
 			return "structFieldsCBOR.Keys holds no duplicates (only Add extends it, guarded by !Has(key), and Add inserts the key into Fields), so at most one iteration removes an element and no later iteration slices again", true
 		}
 	case "panic":
@@ -611,7 +611,7 @@ func (l *lemmas) noDupKeys() bool {
 			continue
 		}
 		for _, s := range ef.Sites {
-			if s.Field == "structFieldsCBOR.Keys" {
+			if t := w.encMapType("CBOR"); t != nil && s.Field == t.Obj().Name()+".Keys" {
 				writers[baseName(fn)] = true
 			}
 		}
@@ -625,7 +625,7 @@ func (l *lemmas) noDupKeys() bool {
 		ok = false
 	}
 	// Add: success path has !Has(key), Fields[key] := val, Keys := append(Keys, key)
-	if t := w.NamedType(w.Enc, "structFieldsCBOR"); t != nil {
+	if t := w.encMapType("CBOR"); t != nil {
 		if add := w.MethodImpl(t, "Add"); add != nil {
 			s := w.Summarise(add)
 			if c, _ := s.Complete(); !c {
